@@ -605,6 +605,140 @@ def run_incremental(ctx, dendropy, tns, trees, use_w, cuts, script, case):
                         return
 
 
+
+# ------------------------------------------------------------------ further entry points (oracle only)
+def ultrametric_on(dendropy, rng, tns, taxa, shape=None):
+    """rooted ultrametric tree with dyadic node heights (all tips at height 0)"""
+    taxa = list(taxa)
+    rng.shuffle(taxa)
+    shape = shape or tu.rand_shape(rng, len(taxa), p_poly=rng.choice([0.0, 0.25]), p_unary=0.0)
+    it = iter(taxa)
+
+    def go(sh):
+        nd = dendropy.Node()
+        if not sh:
+            nd.taxon = next(it)
+            return nd, Fraction(0)
+        kids = [go(c) for c in sh]
+        h = max(k[1] for k in kids) + Fraction(rng.randint(1, 8), 4)
+        for c, hc in kids:
+            c.edge.length = float(h - hc)
+            nd.add_child(c)
+        return nd, h
+    seed, _h = go(shape)
+    t = dendropy.Tree(taxon_namespace=tns, seed_node=seed)
+    t.is_rooted = True
+    return t
+
+
+def tip_age(nd):
+    d = Fraction(0)
+    while nd._child_nodes:
+        nd = nd._child_nodes[0]
+        d += tu.F(nd.edge.length)
+    return d
+
+
+def op_more(ctx, dendropy, pending):
+    rng = ctx.rng
+    n = rng.randint(3, 7)
+    tns = tu.make_namespace(dendropy, n)
+    taxa = list(tns)
+    k = rng.randint(1, 8)
+    base_shape = tu.rand_shape(rng, n, p_poly=0.0, p_unary=0.0)
+    trees = [ultrametric_on(dendropy, rng, tns, taxa, base_shape if rng.random() < 0.6 else None) for _ in range(k)]
+    use_w = rng.random() < 0.5
+    if use_w:
+        for t in trees:
+            t.weight = rng.choice([0.5, 1.0, 2.0])
+    case = dict(sample_case(tns, trees, use_w, None, False), op="more")
+    ctx.case(["more", stable_hash(case)], len({c01.canon_rooted(t) for t in trees}) >= 2, kind="more")
+    fr, _ = oracle_freqs(trees, use_w)
+
+    def fresh():
+        tl = dendropy.TreeList(taxon_namespace=tns)
+        for t in trees:
+            c = c04.clone(dendropy, t)
+            c.weight = t.weight
+            tl.append(c)
+        return tl
+    ta = dendropy.TreeArray(taxon_namespace=tns, use_tree_weights=use_w, ignore_node_ages=False)
+    ta.add_trees(fresh())
+    sd = ta.split_distribution
+    # per-split ages and lengths over the input trees
+    ages, lens = {}, {}
+    for t in trees:
+        masks = tu.leafset_masks(t)
+        for nd in tu.walk(t.seed_node):
+            ages.setdefault(masks[id(nd)], []).append(tip_age(nd))
+            lens.setdefault(masks[id(nd)], []).append(tu.F(nd.edge.length))
+    tgt = c04.clone(dendropy, trees[rng.randrange(k)])
+    mode = rng.choice([None, "mean-length", "median-length", "support", "mean-age"])
+    try:
+        ta.summarize_splits_on_tree(tgt, set_edge_lengths=mode)
+    except Exception as e:
+        ctx.fail("summary", "summarize_splits_on_tree(set_edge_lengths=%r) raised %s: %s" % (mode, type(e).__name__, str(e)[:100]), case)
+        return
+    masks = tu.leafset_masks(tgt)
+    for nd in tu.walk(tgt.seed_node):
+        s = masks[id(nd)]
+        av = sorted(ages[s])
+        mean = sum(av, Fraction(0)) / len(av)
+        med = av[len(av) // 2] if len(av) % 2 else (av[len(av) // 2 - 1] + av[len(av) // 2]) / 2
+        ok = close(nd.age_mean, float(mean)) and close(nd.age_median, float(med)) and \
+            close(nd.age_range[0], float(av[0])) and close(nd.age_range[1], float(av[-1]))
+        if ok and len(av) >= 2:
+            var = sum(((v - mean) ** 2 for v in av), Fraction(0)) / (len(av) - 1)
+            ok = close(nd.age_sd ** 2, float(var), 1e-6)
+        if not ok:
+            ctx.fail("summary", "node of split %d: age mean/median/range/sd = %r/%r/%r/%r, ages of that split over the input trees are %s" % (
+                s, nd.age_mean, nd.age_median, nd.age_range, nd.age_sd, [str(v) for v in av]), case)
+            return
+        lv = sorted(lens[s])
+        lmean = sum(lv, Fraction(0)) / len(lv)
+        lmed = lv[len(lv) // 2] if len(lv) % 2 else (lv[len(lv) // 2 - 1] + lv[len(lv) // 2]) / 2
+        if mode == "mean-length" and not close(nd.edge.length, float(lmean)):
+            ctx.fail("summary", "set_edge_lengths='mean-length': edge of split %d has length %r, mean of its lengths is %s" % (s, nd.edge.length, lmean), case)
+            return
+        if mode == "median-length" and not close(nd.edge.length, float(lmed)):
+            ctx.fail("summary", "set_edge_lengths='median-length': edge of split %d has length %r, median of its lengths is %s" % (s, nd.edge.length, lmed), case)
+            return
+        if mode == "support" and not close(nd.edge.length, float(fr[s])):
+            ctx.fail("summary", "set_edge_lengths='support': edge of split %d has length %r, frequency %s" % (s, nd.edge.length, fr[s]), case)
+            return
+    if mode == "mean-age":
+        # lengths were set from mean ages: every node must now sit at its mean age above its descendant tips
+        for nd in tu.walk(tgt.seed_node):
+            if nd._parent_node is None:
+                continue
+            s, ps = masks[id(nd)], masks[id(nd._parent_node)]
+            want = sum(ages[ps], Fraction(0)) / len(ages[ps]) - sum(ages[s], Fraction(0)) / len(ages[s])
+            if want >= 0 and not close(nd.edge.length, float(want)):
+                ctx.fail("summary", "set_edge_lengths='mean-age': edge of split %d has length %r, difference of mean ages is %s" % (s, nd.edge.length, want), case)
+                return
+    # scores of one tree against the distribution, through SplitDistribution
+    probe = c04.clone(dendropy, trees[rng.randrange(k)])
+    incl = rng.random() < 0.5
+    pm = tu.leafset_masks(probe)
+    want_sum = sum((fr.get(pm[id(nd)], Fraction(0)) for nd in tu.walk(probe.seed_node) if incl or nd._child_nodes), Fraction(0))
+    got_sum = sd.sum_of_split_support_on_tree(c04.clone(dendropy, probe), include_external_splits=incl)
+    if not close(got_sum, float(want_sum)):
+        ctx.fail("support", "SplitDistribution.sum_of_split_support_on_tree(include_external_splits=%s) = %r, sum of the node frequencies is %s" % (incl, got_sum, want_sum), case)
+    want_log = sum(math.log(float(fr[pm[id(nd)]])) for nd in tu.walk(probe.seed_node) if (incl or nd._child_nodes) and fr.get(pm[id(nd)], 0))
+    got_log = sd.log_product_of_split_support_on_tree(c04.clone(dendropy, probe), include_external_splits=incl)
+    if not close(got_log, want_log):
+        ctx.fail("support", "log_product_of_split_support_on_tree = %r, from the frequencies %r" % (got_log, want_log), case)
+    # TreeList route to the maximum-credibility tree returns the input tree object attaining the maximum
+    tl = fresh()
+    best = tl.maximum_product_of_split_support_tree()
+    scores, idx = ta.calculate_log_product_of_split_supports()
+    if best is not tl[idx] and not any(best is t for t in tl):
+        ctx.fail("mcc", "TreeList.maximum_product_of_split_support_tree returned a tree that is not a member of the list", case)
+    elif c01.canon_rooted(best) != c01.canon_rooted(trees[idx]):
+        ctx.fail("mcc", "TreeList.maximum_product_of_split_support_tree has topology %s, the tree attaining the maximum score is %s" % (
+            c01.canon_rooted(best), c01.canon_rooted(trees[idx])), case)
+
+
 def run_op(ctx, dendropy, op, pending, pending_c):
     rng = ctx.rng
     if op == "summ":
@@ -612,6 +746,8 @@ def run_op(ctx, dendropy, op, pending, pending_c):
         check_sample(ctx, dendropy, tns, trees, rng.random() < 0.6, rng.choice(THRESHOLDS), rng.random() < 0.3, pending)
     elif op == "incremental":
         op_incremental(ctx, dendropy, pending)
+    elif op == "more":
+        op_more(ctx, dendropy, pending)
     else:
         op_collapse(ctx, dendropy, pending_c)
 
@@ -624,7 +760,7 @@ def run(ctx):
     for _ in range(ctx.pick(1500, 30000)):
         if ctx.out_of_time():
             break
-        op = rng.choices(["summ", "collapse", "incremental"], [0.6, 0.2, 0.2])[0]
+        op = rng.choices(["summ", "collapse", "incremental", "more"], [0.5, 0.17, 0.17, 0.16])[0]
         state = rng.getstate()
         try:
             run_op(ctx, dendropy, op, pending, pending_c)
